@@ -5,6 +5,12 @@ import json, subprocess, os
 V = os.path.dirname(os.path.dirname(os.path.abspath(__file__)))
 
 claimed = {
+ "C05": dict(tech="SCCP with comparison results pinned (operator orientation / negation tables), loop-verdict placement, type-switch sibling agreement against the R4 schema, reflective method-shape table",
+    text="Decides the structural clauses of the comparison machinery for all paths: quantifier verdicts are returned outside their loops; `!=` is `=` negated with a shared empty path; the four inequalities are oriented correctly over normalised operands with precision/unit mismatch mapped to empty; IsPrimitive/From agree and cover every schema primitive; Equal/TryEqual method shapes match what the reflective dispatcher assumes; Integer/String/Boolean comparisons are evaluated exhaustively over a boundary pool.",
+    note="Not decided: agreement of Date/DateTime/Time/Quantity/Decimal Less/TryEqual with a reference model on values; transitivity on values. Trusted: SCCP engine, operator semantics table.", ref="§3-C05"),
+ "C08": dict(tech="exhaustive abstract evaluation (constant propagation with fixed-width integer semantics) over the boundary pool + who-may-do tables + dominance guards",
+    text="Integer.Add/Sub/Mul and the six arithmetic operators on Integer operands are evaluated from source on all 225 ordered pairs of the property's boundary set and compared with math/big; zero divisors, overflow mapping to empty, unary minus, raw int32 arithmetic outside the helpers, unchecked float→Integer conversions and float64 detours are decided for all paths.",
+    note="Decimal arithmetic itself is trusted to shopspring/decimal. Known findings: float64 detour in abs/ceiling/floor/truncate; powInt32 overflow (uncallable).", ref="§3-C08"),
  "C01": dict(tech="crash-class inventory over the VTA-reachable repository functions: dominance/guard analysis, SCCP over operand-length classes, operator-token enumeration, visitor dispatch typing",
     text="Every instruction of a recognised crash class (explicit panic / panic helper, integer and decimal division, index and slice, unchecked type assertion, non-finite float into decimal, nil patch argument, nil expression node) and every loop in the repository functions reachable from Compile/Evaluate/Patch is an obligation that must be discharged by a guard holding on every path, a reviewed entry or a known finding. Decides the absence of these crash classes for all inputs; nil dereferences in general, third-party panics and stack exhaustion are not decided.",
     note="Trusted: go/ssa, VTA call graph (reflection-only callees added as roots), library panic table (shopspring/decimal, regexp), reviewed.json (39 entries: reflect results, protopath invariants, grammar token positions, collection invariant). Assumes years 0..9999 and collections of System values / FHIR messages.", ref="§3-C01"),
